@@ -86,8 +86,18 @@ def _case(draw):
         # validity: zm/n < 0.99*bb*exp(-dh/h)  -> lower the domain height until it holds
         while zm / n >= 0.99 * bb * math.exp(-dh / h) and dh > zm:
             dh = max(zm, 0.9 * dh)
+        # either argument may be given on its own; the other then takes its documented default (2 * meas_height)
+        which = draw(st.sampled_from(["both", "both", "stretch", "domain_height"]))
+        if which == "stretch":
+            dh = 2.0 * zm
+        elif which == "domain_height":
+            h = 2.0 * zm
+            bb = zm / (math.exp(-z0 / h) - math.exp(-zm / h))
         if zm / n < 0.99 * bb * math.exp(-dh / h):
-            case["stretch"], case["domain_height"] = h, dh
+            if which in ("both", "stretch"):
+                case["stretch"] = h
+            if which in ("both", "domain_height"):
+                case["domain_height"] = dh
     return case
 
 
@@ -107,8 +117,9 @@ def _call(case, forcing=None, **override):
         kw["ustar"] = case["ustar"]
     if "tke" in case:
         kw["tke"] = case["tke"]
-    if "stretch" in case:
-        kw["stretch"], kw["domain_height"] = case["stretch"], case["domain_height"]
+    for k in ("stretch", "domain_height"):
+        if k in case:
+            kw[k] = case[k]
     kw.update(override)
     z, prof = vertical_profiles(**kw)
     return np.asarray(z, float).ravel(), tuple(np.asarray(a, float).ravel() for a in prof)
@@ -122,7 +133,7 @@ def check_case(case):
     cl, zm, L, n = case["closure"], case["zm"], float(case["mol"]), case["n"]
     um, vm = case["wind"]
     U = math.hypot(um, vm)
-    custom = "stretch" in case
+    custom = "stretch" in case or "domain_height" in case
     out.label("zm=int" if isinstance(case["zm"], int) else "zm=float", "closure=" + cl, "stab=" + case["stab"], "forcing=" + case["forcing"], "grid=custom" if custom else "grid=default",
               "n>30" if n > 30 else "n<=30")
     try:
